@@ -279,6 +279,15 @@ class CircuitCompositeOperation(ICircuitCompositeOperation):
             relation_transfer_lookup[node.operation] = operation_copy
             result.add(operation_copy)
 
+        # Group relations can reference operations that are copied later in the iteration.
+        # Transfer these (again) now that all copies exist.
+        for node in self._circuit_graph.get_node_iterator():
+            if isinstance(node.operation.relation_link, MultiRelationLink):
+                relation_transfer_lookup[node.operation].relation_link = node.operation.relation_link.copy(
+                    relation_transfer_lookup=relation_transfer_lookup,
+                )
+        clear_start_time_cache()
+
         return result
 
     def apply_modifiers_to_self(self) -> ICircuitOperation:
